@@ -83,50 +83,80 @@ def check_case(ctx, L, case, faults_map=None):
 OPT_HELPER = r"""
 import sys, json
 sys.path.insert(0, sys.argv[1])
+from tpmstream.common.event import MarshalEvent
 from tpmstream.io.binary import Binary
 from tpmstream.spec import all_types
 from tpmstream.spec.structures.constants import TPM_CC
 reg = {t.__name__: t for t in all_types}
 out = []
 for c in json.load(sys.stdin):
-    kw = dict(tpm_type=reg[c["type"]], buffer=bytes.fromhex(c["hex"]))
-    if c["cc"] is not None:
-        kw["command_code"] = TPM_CC(c["cc"])
-    if c["enc"]:
-        kw["parameter_encryption"] = True
-    try:
-        events = list(Binary.marshal(**kw))
+    res = {}
+    for mode, strict in (("strict", True), ("warn", False)):
+        kw = dict(tpm_type=reg[c["type"]], buffer=bytes.fromhex(c["hex"]), abort_on_error=strict)
+        if c["cc"] is not None:
+            kw["command_code"] = TPM_CC(c["cc"])
+        if c["enc"]:
+            kw["parameter_encryption"] = True
+        events = []
+        try:
+            for e in Binary.marshal(**kw):
+                events.append(e)
+            end = "ok"
+        except Exception as exc:
+            end = type(exc).__name__
         chunks = list(Binary.unmarshal(events))
-        out.append({"ok": True, "events": len(events), "prims": sum(1 for ch in chunks if ch), "hex": b"".join(chunks).hex()})
-    except Exception as exc:
-        out.append({"ok": False, "error": repr(exc)[:200]})
+        shape = [str(e.path) if isinstance(e, MarshalEvent) else "!" + type(e.error).__name__ for e in events]
+        res[mode] = {"end": end, "shape": shape, "hex": b"".join(chunks).hex()}
+    out.append(res)
 print(json.dumps(out))
 """
 
 
 def optimized_interpreter(ctx, L, cases):
-    """The same round trip in a fresh interpreter started with -O (assert statements compiled away): a library must not
-    depend on its asserts for its behaviour."""
+    """The same decodes (strict and warn) and round trips in a fresh interpreter started with -O (assert statements compiled
+    away) must behave exactly as in this interpreter: a library must not depend on its asserts for its behaviour."""
     import json
     import subprocess
     import sys
 
     from ..runner import HarnessError
 
-    inp = [{"type": c.type, "hex": c.data.hex(), "cc": c.cc, "enc": bool(c.enc)} for c in cases if c.type in ("Command", "Response", "CommandResponseStream") or L.is_prim(c.type) or c.type in L.snap["structs"]]
+    inp = []
+    for c, fm in cases:
+        if not (c.type in ("Command", "Response", "CommandResponseStream") or L.is_prim(c.type) or c.type in L.snap["structs"]):
+            continue
+        inp.append({"type": c.type, "hex": c.data.hex(), "cc": c.cc, "enc": bool(c.enc)})
+        if fm:
+            inp.append({"type": c.type, "hex": faults.patch(L, c, fm).hex(), "cc": c.cc, "enc": bool(c.enc), "faulted": True})
     if not inp:
         return
-    p = subprocess.run([sys.executable, "-O", "-c", OPT_HELPER, O.SRC], input=json.dumps(inp), capture_output=True, text=True, timeout=600)
+    p = subprocess.run([sys.executable, "-O", "-c", OPT_HELPER, O.SRC], input=json.dumps(inp), capture_output=True, text=True, timeout=900)
     if p.returncode != 0:
         raise HarnessError(f"python -O helper failed: {p.stderr[-800:]}")
     res = json.loads(p.stdout.strip().splitlines()[-1])
     for c, r in zip(inp, res):
+        data = bytes.fromhex(c["hex"])
         ctx.case(("-O", c["type"], c["hex"]), True, sample={"interpreter": "python -O", **c} if len(c["hex"]) < 80 else None)
-        ctx.count("python -O round trips")
-        payload = {"type": c["type"], "data": bytes.fromhex(c["hex"]), "cc": c["cc"], "enc": c["enc"], "interpreter": "-O"}
-        if not r["ok"] or r["hex"] != c["hex"]:
-            ctx.problem("C02:optimized-interpreter", f"under `python -O` decoding and re-encoding {c['hex'][:200]} as {c['type']} gives {r}", payload)
-            return
+        ctx.count("python -O decodes")
+        payload = {"type": c["type"], "data": data, "cc": c["cc"], "enc": c["enc"], "interpreter": "-O"}
+        for mode, strict in (("strict", True), ("warn", False)):
+            O.reset_state()
+            here = O.run_decode(c["type"], data, command_code=c["cc"], enc=c["enc"], strict=strict)
+            shape = [e[0] if e[0] != "!warning" else "!" + e[1] for e in here.events]
+            end = "ok" if here.outcome["kind"] == "ok" else None
+            got = r[mode]
+            if got["shape"] != shape or (end == "ok") != (got["end"] == "ok"):
+                d = next((i for i, (x, y) in enumerate(zip(got["shape"], shape)) if x != y), min(len(got["shape"]), len(shape)))
+                ctx.problem(
+                    f"C02:optimized-interpreter:{mode}",
+                    f"under `python -O` the {mode} decode of {c['hex'][:200]} as {c['type']} differs: event {d} is {got['shape'][d] if d < len(got['shape']) else None} "
+                    f"(normally {shape[d] if d < len(shape) else None}), {len(got['shape'])} vs {len(shape)} events, end {got['end']} vs {here.outcome['kind']}",
+                    payload,
+                )
+                return
+            if end == "ok" and all(x[1]["kind"] == "value" for x in here.warnings) and got["hex"] != c["hex"]:
+                ctx.problem(f"C02:optimized-interpreter:{mode}", f"under `python -O` re-encoding the {mode} decode of {c['hex'][:200]} as {c['type']} gives {got['hex'][:200]}", payload)
+                return
 
 
 def run_shard(ctx):
@@ -155,7 +185,7 @@ def run_shard(ctx):
         from .. import gen
 
         collected = []
-        ctx.run_given(gen.messages(L), collected.append, 25 if ctx.quick() else 100, name="for-python-O")
+        ctx.run_given(st.tuples(gen.messages(L), st.data()), lambda ex: collected.append((ex[0], ex[1].draw(faults.value_faults(L, ex[0])))), 25 if ctx.quick() else 100, name="for-python-O")
         ctx.run_plain(lambda: optimized_interpreter(ctx, L, collected), "python-O")
 
 
